@@ -44,6 +44,10 @@ func exec(op string) vlib.Res {
 		return execDS(f)
 	case "wild verify":
 		return execWild(f)
+	case "synth check":
+		return execSynth(f)
+	case "deleg nsec":
+		return execDeleg(f)
 	case "ad edns":
 		return execAdEdns(f)
 	case "ad tomsg":
@@ -89,7 +93,11 @@ func gen(r *vlib.R, n int, tier string, emit func(string)) {
 	}
 	rest := n - n*9/20
 	for rest > 0 {
-		switch k := r.Intn(20); {
+		switch k := r.Intn(23); {
+		case k == 20 || k == 21:
+			emit(genSynth(r))
+		case k == 22:
+			emit(genDeleg(r))
 		case k < 9:
 			op, tags := genRRSIG(r, now)
 			em(op, tags)
